@@ -215,10 +215,16 @@ def xml_leaves(doc):
     return leaves
 
 
+def xml_chars(text):
+    """U+0000 and the noncharacters U+FFFE / U+FFFF are no XML characters (not even as references): a faithful rendering shows
+    them as U+FFFD, in text and in the `key` attribute alike"""
+    return text.replace("\0", "\ufffd").replace("\ufffe", "\ufffd").replace("\uffff", "\ufffd")
+
+
 def json_leaves(v, nums, path=(), key=None):
     """the leaves a faithful XML rendering of the JSON value must have: object members under their key, array items
     under the array's key (`item` when it has none), null as an empty element, NUL shown as U+FFFD"""
-    here = path + ((key,) if key is not None else ())
+    here = path + ((xml_chars(key),) if key is not None else ())
     if isinstance(v, dict):
         out = []
         for k in v:
@@ -240,8 +246,7 @@ def json_leaves(v, nums, path=(), key=None):
         return [(here, "true" if v else "false")]
     if isinstance(v, (int, float)):
         return [(here, nums.get(num_key(v), repr(v).encode()).decode())]
-    # U+0000 and the noncharacters U+FFFE / U+FFFF are no XML characters (not even as references): shown as U+FFFD
-    return [(here, v.replace("\0", "\ufffd").replace("\ufffe", "\ufffd").replace("\uffff", "\ufffd"))]
+    return [(here, xml_chars(v))]
 
 
 
